@@ -477,6 +477,12 @@ func (w *World) regexUFDecls(text string) string {
 		for k := 0; k <= ri.NumSubexp; k++ {
 			fmt.Fprintf(&b, "(declare-fun regroup_%s_%d (Str) Str)\n", id, k)
 			fmt.Fprintf(&b, "(assert (forall ((s Str)) (! (=> (wfstr s) (wfstr (regroup_%s_%d s))) :pattern ((regroup_%s_%d s)))))\n", id, k, id, k)
+			// T2: a capture group is a (possibly empty) substring of the subject
+			fmt.Fprintf(&b, "(declare-fun regrlo_%s_%d (Str) Int)\n(declare-fun regrhi_%s_%d (Str) Int)\n", id, k, id, k)
+			// (guarded by slen s >= 0: the SMT universe also contains ill-formed strings of
+			// negative length, for which an unguarded 0 <= lo <= hi <= slen s would be inconsistent)
+			fmt.Fprintf(&b, "(assert (forall ((s Str)) (! (=> (>= (slen s) 0) (and (<= 0 (regrlo_%s_%d s)) (<= (regrlo_%s_%d s) (regrhi_%s_%d s)) (<= (regrhi_%s_%d s) (slen s)) (= (regroup_%s_%d s) (ssub s (regrlo_%s_%d s) (regrhi_%s_%d s))))) :pattern ((regroup_%s_%d s)))))\n",
+				id, k, id, k, id, k, id, k, id, k, id, k, id, k, id, k)
 		}
 		for k, bs := range ri.GroupFixed {
 			var fs []string
